@@ -18,7 +18,7 @@ VARIABLES sc, emitted
 
 Positions == 0..2
 Reqs == {"CreateContainer", "UpdateContainer", "StopContainer", "StartContainer", "UpdatePodSandbox"}
-FastFaults == {"none", "close-before", "close-during", "handler-error", "close-after"}
+FastFaults == {"none", "close-before", "close-during", "handler-error", "close-after", "wrong-frame"}
 SlowFaults == {"hang", "hang-ctx", "garbage"}
 
 Scenarios ==
